@@ -103,14 +103,14 @@ func (d *Digest) Sum() [32]byte {
 
 // Dir is the reference state of one protected direction (one sender).
 type Dir struct {
-	gcm      cipher.AEAD
-	BaseIV   [16]byte
-	HaveIV   bool
-	Counter  uint32
-	First    bool // next frame is the first protected frame of this direction
-	SenderD  [32]byte // digest of what the sender of this direction sent in clear
-	PeerD    [32]byte // digest of what the sender of this direction received in clear
-	Nonces   map[[16]byte]int
+	gcm     cipher.AEAD
+	BaseIV  [16]byte
+	HaveIV  bool
+	Counter uint32
+	First   bool     // next frame is the first protected frame of this direction
+	SenderD [32]byte // digest of what the sender of this direction sent in clear
+	PeerD   [32]byte // digest of what the sender of this direction received in clear
+	Nonces  map[[16]byte]int
 }
 
 func NewDir(key []byte, senderDigest, peerDigest [32]byte) (*Dir, error) {
